@@ -127,15 +127,14 @@ def run_repr(ctx: Ctx) -> RuleResult:
     # the parametric newline values are themselves defined by an isinstance split
     for fq, var in (('lark.parsers.xearley:Parser._parse', None), ('lark.lexer:LineCounter.from_text_slice', None)):
         f = repo.func(fq)
-        splits = [n for n in f.body_nodes() if isinstance(n, ast.IfExp) and isinstance(n.test, ast.Call)
-                  and norm(n.test.func) == 'isinstance' and norm(n.test.args[1]) == 'bytes']
+        from ..exprs import cond_values, unify, pat
+        splits = [(tgt, va, vb) for tgt, test, va, vb, _n in cond_values(f.body_nodes())
+                  if unify(pat('isinstance($$t, bytes)'), test) is not None]
         ok = False
-        for s in splits:
-            b, o = s.body, s.orelse
+        for tgt, b, o in splits:
             # how is the value used?  compared with *elements* of the text (iteration yields ints for bytes) -> the bytes arm
             # must be an int; passed to count/rindex (substring search) -> the bytes arm must be b'\n'
-            st = enclosing_stmt(s)
-            var = st.targets[0].id if isinstance(st, ast.Assign) and isinstance(st.targets[0], ast.Name) else None
+            var = tgt if tgt.isidentifier() and tgt != 'return' else None
             elementwise = False
             if var is not None:
                 loopvars = {n.target.id for n in f.body_nodes() if isinstance(n, ast.For) and isinstance(n.target, ast.Name)}
